@@ -42,7 +42,8 @@ ERR_CODES: List[int] = [2001, 2002, 1, -1, 12345, -32000, -32099, -32602, 2 ** 5
 ERR_MESSAGES: List[str] = ['m', 'boom', 'x y z', 'é']
 EXC_KINDS: List[str] = ['value', 'key', 'type', 'assert', 'runtime', 'custom', 'lookup', 'oserror', 'validation',
                         'badrepr', 'timeout', 'aio_timeout', 'fut_cancelled', 'connreset', 'zerodiv', 'notimpl', 'attr',
-                        'recursion', 'group', 'unicode', 'stopaiter', 'handled_proto_ctx']
+                        'recursion', 'group', 'unicode', 'stopaiter', 'handled_proto_ctx', 'lib_identity', 'lib_deser',
+                        'lib_base']
 
 
 def logical_call(ch: Choices, tok: str, allow_fail: bool = True, allow_notification: bool = True,
